@@ -240,10 +240,39 @@ def b_layout(ev):
 
 
 def nrep_layout(ev):
-    src = ast.unparse(ev.method("Get_N_pg_rep")).replace(" ", "")
-    for need in ("ifrepeat<=1:returnN_pg", "size=N_pg.shape[2]*repeat", "forrinrange(repeat):N_vect_pg[:,r,np.arange(r,size,repeat)]=N_pg[:,0,:]"):
-        if need not in src.replace("\n", ""):
-            raise TranslateError("%s:Get_N_pg_rep: expected `%s`" % (GE, need))
+    """Get_N_pg_rep(matrixType, repeat): repeat <= 1 returns N_pg; otherwise the block layout
+    N_vect[:, r, arange(r, nPe*repeat, repeat)] = N_pg[:, 0, :] for r < repeat -- read off the partially
+    evaluated function for repeat = 1, 2, 3 (the layout of the code does not matter)"""
+    from translator.peval import PEval
+    fn = ev.method("Get_N_pg_rep")
+    N = "self.Get_N_pg(matrixType)"
+
+    def flat(eff, out):
+        for e in eff:
+            if e[0] == "if":
+                flat(e[2], out)
+                flat(e[3], out)
+            else:
+                out.append(e)
+        return out
+    for q in (1, 2, 3):
+        ret, eff = PEval(ev.ge, ev.cls, leaves={"self.dim": 2}, where=GE + ":Get_N_pg_rep").evaluate(fn, args={"repeat": q})
+        r = (ret or "").replace(" ", "")
+        effs = flat(eff, [])
+        if q == 1:
+            if effs or not (r == N or r.endswith("else" + N)):
+                raise TranslateError("%s:Get_N_pg_rep(repeat=1) is not N_pg: %s %r" % (GE, ret, effs[:1]))
+            continue
+        base = "np.zeros((%s.shape[0],%d,%s.shape[2]*%d))" % (N, q, N, q)
+        loops = [e for e in effs if e[0] == "for"]
+        if len(loops) != 1 or len(effs) != 1 or loops[0][2].replace(" ", "") != str(list(range(q))).replace(" ", "") or len(loops[0][3]) != 1:
+            raise TranslateError("%s:Get_N_pg_rep(repeat=%d): expected one loop over range(repeat) with one store: %r" % (GE, q, effs[:2]))
+        st = loops[0][3][0]
+        v = loops[0][1]
+        want = ("store", base, "(:,%s,np.arange(%s,%s.shape[2]*%d,%d))" % (v, v, N, q, q), N + "[:,0,:]")
+        got = tuple(x.replace(" ", "") for x in st)
+        if got != want or not (r == base or r.endswith("else" + base)):
+            raise TranslateError("%s:Get_N_pg_rep(repeat=%d): block layout not recognised: %r / return %s" % (GE, q, st, ret))
     return True
 
 
